@@ -2,6 +2,7 @@ package model
 
 import (
 	"fmt"
+	"regexp"
 	"strings"
 
 	"verif/oracle/html5"
@@ -9,10 +10,10 @@ import (
 
 // unit is the comparison granule: a tag-like symbol or one byte of text.
 type unit struct {
-	sym string // non-empty for tag-like symbols
-	ch  byte
-	ws  bool // actual: whitespace seen before this unit; expected: GapWS
-	req bool // expected only
+	sym   string // non-empty for tag-like symbols
+	ch    byte
+	ws    bool // actual: whitespace seen before this unit; expected: GapWS
+	req   bool // expected only
 	blame string
 }
 
@@ -84,7 +85,16 @@ type Mismatch struct {
 }
 
 // Compare checks observed output against the reference atoms.
+var (
+	scriptHashRe = regexp.MustCompile(`__templ_([A-Za-z0-9]+s[0-9])_[0-9a-f]{4}`)
+	cssHashRe    = regexp.MustCompile(`([A-Za-z0-9]+k[0-9])_[0-9a-f]{8}`)
+)
+
 func Compare(atoms []Atom, out []byte) *Mismatch {
+	// script function names and css class ids carry a content hash; the model
+	// writes HASH in its place
+	out = scriptHashRe.ReplaceAll(out, []byte("__templ_${1}_HASH"))
+	out = cssHashRe.ReplaceAll(out, []byte("${1}_HASH"))
 	toks, err := html5.Tokenize(out)
 	if err != nil {
 		return &Mismatch{Class: "content", Msg: "output does not tokenize: " + err.Error()}
